@@ -33,6 +33,7 @@ def run(ctx):
     ctx.run_rule("S4c", r_state.rule_clone, cfgs)
     ctx.run_rule("MO", r_state.rule_merge_order, cfgs)
     ctx.run_rule("S5", r_hazmat.rule_S5, cfgs)
+    ctx.run_rule("AL", r_hazmat.rule_AL, cfgs)
     ctx.run_rule("Ff", r_flags.rule_F_fields, cfgs)
     # the incremental path compresses through the same sites as the one-shot path: flag/counter discipline at every
     # compression site, scratch sizes and the subtree split of update's wide hashing, zero padding of the block buffer
